@@ -55,6 +55,12 @@ pub enum Mode {
 pub struct Db<'a> {
     pub tables: &'a [Table],
     pub mode: Mode,
+    /// facts observed while evaluating (used only to classify failures against
+    /// known-finding signatures and for non-triviality rules; never for verdicts)
+    pub events: std::cell::RefCell<std::collections::BTreeSet<&'static str>>,
+    /// join pairs examined so far / limit (statements beyond it are discarded)
+    pub work: std::cell::RefCell<u64>,
+    pub budget: u64,
 }
 
 struct Scope<'a> {
@@ -162,12 +168,17 @@ fn arith(op: BinOp, a: &Value, b: &Value) -> R<Value> {
         }
         (Value::Int(_) | Value::Double(_), Value::Int(_) | Value::Double(_)) => {
             let (x, y) = (a.as_f64().unwrap(), b.as_f64().unwrap());
-            Ok(Value::Double(match op {
+            let r = match op {
                 BinOp::Add => x + y,
                 BinOp::Sub => x - y,
                 BinOp::Mul => x * y,
                 _ => unreachable!(),
-            }))
+            };
+            if r == 0.0 && r.is_sign_negative() {
+                // -0.0 ordering/equality is documented engine-defined: not compared
+                return Err("negative zero is engine-defined".into());
+            }
+            Ok(Value::Double(r))
         }
         _ => Err(format!("arithmetic on {:?} and {:?}", a, b)),
     }
@@ -205,10 +216,16 @@ fn null_row(n: usize) -> Vec<Value> {
 
 impl<'a> Db<'a> {
     pub fn new(tables: &'a [Table]) -> Self {
-        Db { tables, mode: Mode::Standard }
+        Db { tables, mode: Mode::Standard, events: Default::default(), work: Default::default(), budget: 400_000 }
     }
     pub fn with_mode(tables: &'a [Table], mode: Mode) -> Self {
-        Db { tables, mode }
+        Db { tables, mode, events: Default::default(), work: Default::default(), budget: 400_000 }
+    }
+    fn ev(&self, e: &'static str) {
+        self.events.borrow_mut().insert(e);
+    }
+    pub fn saw(&self, e: &str) -> bool {
+        self.events.borrow().contains(e)
     }
 
     pub fn run(&self, q: &Query) -> R<RefAnswer> {
@@ -346,6 +363,7 @@ impl<'a> Db<'a> {
             SetExpr::Select(sel) => Ok(self.eval_select(sel, outer, ctes, &[])?.0),
             SetExpr::Nested(q) => Ok(self.eval_query(q, outer, ctes, false)?.0),
             SetExpr::Values(rows) => {
+                self.ev("values");
                 let empty_cols: Vec<ColRef> = vec![];
                 let empty_row: Vec<Value> = vec![];
                 let sc = Scope { cols: &empty_cols, row: &empty_row, parent: outer };
@@ -372,6 +390,12 @@ impl<'a> Db<'a> {
                     return Err("set operation arity mismatch".into());
                 }
                 let all = *all && self.mode != Mode::SetSemantics;
+                if a.rows.iter().chain(b.rows.iter()).any(|r| r.iter().any(|v| v.is_null())) {
+                    self.ev("null_in_setop_row");
+                }
+                if all && *op != SetOp::Union {
+                    self.ev("intersect_or_except_all");
+                }
                 let rows = set_op(*op, all, &a.rows, &b.rows);
                 Ok(Rel { cols: a.cols.iter().map(|c| ColRef { rel: None, name: c.name.clone() }).collect(), rows })
             }
@@ -427,10 +451,18 @@ impl<'a> Db<'a> {
     }
 
     fn join(&self, a: &Rel, b: &Rel, kind: JoinKind, on: Option<&Expr>, outer: Option<&Scope>, ctes: &Ctes) -> R<Rel> {
+        // work budget: pathological statements are discarded, never judged
+        {
+            let mut w = self.work.borrow_mut();
+            *w += (a.rows.len() as u64).max(1) * (b.rows.len() as u64).max(1);
+            if *w > self.budget {
+                return Err("reference evaluation budget exceeded".into());
+            }
+        }
         let mut cols = a.cols.clone();
         cols.extend(b.cols.iter().cloned());
         let ec = ECtx { group: None, absent: NO_ABSENT, win: None };
-        let pair_ok = |ra: &Vec<Value>, rb: &Vec<Value>| -> R<bool> {
+        let pair_ok =|ra: &Vec<Value>, rb: &Vec<Value>| -> R<bool> {
             match on {
                 None => Ok(true),
                 Some(e) => {
@@ -614,12 +646,16 @@ impl<'a> Db<'a> {
                 for row in &src.rows {
                     let sc = Scope { cols: &src.cols, row, parent: outer };
                     let key: Vec<Value> = set.iter().map(|e| self.eval(e, &sc, &plain, ctes)).collect::<R<_>>()?;
+                    if key.iter().any(|v| v.is_null()) {
+                        self.ev("null_group_key");
+                    }
                     match groups.iter_mut().find(|(k, _)| rows_not_distinct(k, &key)) {
                         Some((_, rows)) => rows.push(row.clone()),
                         None => groups.push((key, vec![row.clone()])),
                     }
                 }
                 if groups.is_empty() && set.is_empty() {
+                    self.ev("global_agg_empty_input");
                     // a global aggregate over no rows still yields one group
                     groups.push((vec![], vec![]));
                 }
@@ -690,6 +726,9 @@ impl<'a> Db<'a> {
             let mut rows2: Rows = vec![];
             let mut keys2 = vec![];
             for (r, k) in out_rows.into_iter().zip(out_keys.into_iter()) {
+                if r.iter().any(|v| v.is_null()) {
+                    self.ev("null_in_distinct_row");
+                }
                 if !rows2.iter().any(|x: &Vec<Value>| rows_not_distinct(x, &r)) {
                     rows2.push(r);
                     keys2.push(k);
@@ -717,6 +756,9 @@ impl<'a> Db<'a> {
                 BinOp::And | BinOp::Or => {
                     let x = truth(&self.eval(a, sc, ec, ctes)?)?;
                     let y = truth(&self.eval(b, sc, ec, ctes)?)?;
+                    if x.is_none() || y.is_none() {
+                        self.ev(if *op == BinOp::And { "and_null_operand" } else { "or_null_operand" });
+                    }
                     let (x, y) = if self.mode == Mode::TwoValued {
                         (Some(x == Some(true)), Some(y == Some(true)))
                     } else {
@@ -753,6 +795,9 @@ impl<'a> Db<'a> {
             },
             Expr::Not(x) => {
                 let t = truth(&self.eval(x, sc, ec, ctes)?)?;
+                if t.is_none() {
+                    self.ev("not_null_operand");
+                }
                 if self.mode == Mode::TwoValued {
                     tv(Some(t != Some(true)))
                 } else {
@@ -762,7 +807,12 @@ impl<'a> Db<'a> {
             Expr::Neg(x) => match self.eval(x, sc, ec, ctes)? {
                 Value::Null => Value::Null,
                 Value::Int(i) => Value::Int(i.checked_neg().ok_or("overflow")?),
-                Value::Double(d) => Value::Double(-d),
+                Value::Double(d) => {
+                    if d == 0.0 {
+                        return Err("negative zero is engine-defined".into());
+                    }
+                    Value::Double(-d)
+                }
                 o => return Err(format!("negate {:?}", o)),
             },
             Expr::IsNull { e, neg } => Value::Bool(self.eval(e, sc, ec, ctes)?.is_null() != *neg),
@@ -772,12 +822,18 @@ impl<'a> Db<'a> {
                 for x in list {
                     items.push(self.eval(x, sc, ec, ctes)?);
                 }
+                if v.is_null() || items.iter().any(|i| i.is_null()) {
+                    self.ev("in_list_null");
+                }
                 tv(in_3vl(&v, &items)?.map(|b| b != *neg))
             }
             Expr::Between { e, lo, hi, neg } => {
                 let v = self.eval(e, sc, ec, ctes)?;
                 let l = self.eval(lo, sc, ec, ctes)?;
                 let h = self.eval(hi, sc, ec, ctes)?;
+                if v.is_null() || l.is_null() || h.is_null() {
+                    self.ev("between_null");
+                }
                 let ge = sql_cmp(&v, &l)?.map(|o| o != Ordering::Less);
                 let le = sql_cmp(&v, &h)?.map(|o| o != Ordering::Greater);
                 let both = match (ge, le) {
@@ -798,7 +854,10 @@ impl<'a> Db<'a> {
             },
             Expr::Case { operand, whens, els } => {
                 let opv = match operand {
-                    Some(o) => Some(self.eval(o, sc, ec, ctes)?),
+                    Some(o) => {
+                        self.ev("case_simple");
+                        Some(self.eval(o, sc, ec, ctes)?)
+                    }
                     None => None,
                 };
                 for (w, t) in whens {
@@ -852,6 +911,10 @@ impl<'a> Db<'a> {
                         Some(a) => vals.push(self.eval(a, &rsc, &inner, ctes)?),
                     }
                 }
+                if *f != AggF::Count && vals.iter().all(|v| v.is_null()) {
+                    // SUM/AVG/MIN/MAX over a group with no non-NULL input (→ NULL)
+                    self.ev("agg_no_nonnull_input");
+                }
                 aggregate(*f, &vals, *distinct)?
             }
             Expr::Grouping(args) => {
@@ -872,6 +935,9 @@ impl<'a> Db<'a> {
                     return Err("IN subquery must return one column".into());
                 }
                 let items: Vec<Value> = r.rows.into_iter().map(|mut x| x.remove(0)).collect();
+                if v.is_null() || items.iter().any(|i| i.is_null()) {
+                    self.ev(if *neg { "not_in_subquery_null" } else { "in_subquery_null" });
+                }
                 tv(in_3vl(&v, &items)?.map(|b| b != *neg))
             }
             Expr::Scalar(q) => {
